@@ -216,6 +216,28 @@ func vgOp(ws []string) (string, bool) {
 	if vgSess == nil {
 		return "", false
 	}
+	switch ws[0] {
+	case "validators":
+		// the `auth` level requires a validated e-mail (tinode.conf: auth_config / validator "email": required ["auth"])
+		if len(ws) > 1 && ws[1] == "on" {
+			globals.authValidators = map[auth.Level][]string{auth.LevelAuth: {"email"}}
+		} else {
+			globals.authValidators = nil
+		}
+		return "ok", true
+	case "cred":
+		// the account has a validated e-mail
+		uid, ok := vgUsers[ws[1]]
+		if !ok {
+			return "", false
+		}
+		c := &types.Credential{User: uid.String(), Method: "email", Value: strings.ToLower(ws[1]) + "@example.com", Done: true}
+		c.InitTimes()
+		if _, err := vw.ad.CredUpsert(c); err != nil && err != types.ErrDuplicate {
+			return "cred: " + err.Error(), true
+		}
+		return "ok", true
+	}
 	s := vgSess
 	msg := &ClientComMessage{}
 	if as, ok := kv["as"]; ok {
